@@ -228,13 +228,29 @@ def run(prog: Program, res: Result) -> None:  # noqa: PLR0912, PLR0915
             res.ok("C11.R4", f"{sa_mod.relpath}:{ef.node.lineno} _extract_filters", what, "attribute read")
         else:
             res.fail("C11.R4", file=sa_mod.relpath, line=ef.node.lineno, qualname="_extract_filters", construct=f"_extract_filters ignores .{attr}", message=f"filters stored in `{attr}` of {sorted(classes)} are never reported by analyze().filters", what=what)
+    from sa.cfg import CFG
+
     for fname in ("_extract_filters", "_analyze_variables"):
         f = sa_mod.functions.get(fname)
-        what = f"{fname} recurses over expression.children()"
-        if f is not None and any(isinstance(l, ast.For) and norm(l.iter) == "expression.children()" and any(isinstance(c, ast.Call) and (dotted(c.func) or "") == fname for c in ast.walk(l)) for l in ast.walk(f.node)):
-            res.ok("C11.R4", f"{sa_mod.relpath}:{f.node.lineno} {fname}", what, "for expr in expression.children(): recurse")
+        what = f"{fname} recurses over expression.children() on every path (whatever the expression type)"
+        ok = False
+        if f is not None:
+            cfg = CFG(f.node, may_raise=lambda st: False)
+            rec = [n for n in cfg.nodes if n.kind == "for" and isinstance(n.node, ast.For) and norm(n.node.iter) == "expression.children()" and any(isinstance(c, ast.Call) and (dotted(c.func) or "") == fname for c in ast.walk(n.node))]
+            ok = bool(rec) and cfg.all_paths_pass(cfg.exit, lambda n: n in rec)
+            # … and inside each such loop the recursive call is unconditional
+            for n in rec:
+                for c in ast.walk(n.node):
+                    if isinstance(c, ast.Call) and (dotted(c.func) or "") == fname:
+                        for a in sa_mod.ancestors(c):
+                            if a is n.node:
+                                break
+                            if isinstance(a, (ast.If, ast.IfExp, ast.Try, ast.While)) or (isinstance(a, ast.comprehension) and a.ifs):
+                                ok = False
+        if ok:
+            res.ok("C11.R4", f"{sa_mod.relpath}:{f.node.lineno} {fname}", what, "every path to the exit passes `for expr in expression.children(): recurse`")
         else:
-            res.fail("C11.R4", file=sa_mod.relpath, line=f.node.lineno if f else 0, qualname=fname, construct=f"{fname} recursion", message=f"{fname} does not recurse over every child expression", what=what)
+            res.fail("C11.R4", file=sa_mod.relpath, line=f.node.lineno if f else 0, qualname=fname, construct=f"{fname} recursion is missing or conditional", message=f"{fname} does not recurse over the children of every expression type: filters/variables nested under the skipped types (comparisons, logical operators, lambdas, ranges …) are used at run time but never reported", what=what)
     # _visit uses expressions(), template_scope(), block_scope(), children(), partial_scope()
     for outer in ("_analyze", "_analyze_async"):
         v = sa_mod.functions.get(f"{outer}.<locals>._visit")
@@ -253,6 +269,27 @@ def run(prog: Program, res: Result) -> None:  # noqa: PLR0912, PLR0915
             res.ok("C11.R4", f"{sa_mod.relpath}:{v.node.lineno} {v.qualname}", what, "present")
         else:
             res.fail("C11.R4", file=sa_mod.relpath, line=v.node.lineno, qualname=v.qualname, construct="tag recording", message="tags are not recorded from every tag token", what=what)
+
+    # ------------------------------------------------------------------ R6 static scope pairing
+    res.rule("C11.R6", "in the analyser visitors every static-scope push is followed by a pop on every path to the function's exit (no early return between them)")
+    n_push = 0
+    for f in list(sa_mod.functions.values()):
+        pushes = [c for c in ast.walk(f.node) if isinstance(c, ast.Call) and isinstance(c.func, ast.Attribute) and c.func.attr == "push" and prog.enclosing_function(sa_mod, c) is f]
+        if not pushes:
+            continue
+        cfg = CFG(f.node, may_raise=lambda st: False)
+        pops = [n for n in cfg.nodes if n.kind == "stmt" and n.node is not None and any(isinstance(c, ast.Call) and isinstance(c.func, ast.Attribute) and c.func.attr == "pop" for c in ast.walk(n.node))]
+        for c in pushes:
+            n_push += 1
+            pn = next((n for n in cfg.nodes if n.kind in ("stmt", "test") and n.node is not None and any(x is c for x in ast.walk(n.node))), None)
+            site = f"{sa_mod.relpath}:{c.lineno} {f.qualname}"
+            what = f"`{norm(c, 50)}` popped on every path to the exit"
+            leak = pn is None or cfg.exit.id in cfg.reachable(pn, avoid=lambda n: n in pops and n is not pn)
+            if not leak:
+                res.ok("C11.R6", site, what, "no path from the push to the exit avoids a pop")
+            else:
+                res.fail("C11.R6", file=sa_mod.relpath, line=c.lineno, qualname=f.qualname, construct=f"{norm(c, 50)} can reach the exit without a pop", message=f"{f.qualname} can return after `{norm(c, 40)}` without the matching pop: names of a partial/block stay in the analyser's scope and later uses of them are no longer reported as globals", what=what)
+    res.floor("C11.R6", "static-scope pushes", n_push, 4)
 
     # ------------------------------------------------------------------ R5 twins
     res.rule("C11.R5", "the async analyser and the async Template helper methods agree with their sync twins")
